@@ -257,7 +257,7 @@ Proof.
 Qed.
 
 Lemma type_var_of_meets : forall kvs : list (val * val), forallb self_eq (map snd kvs) = true ->
-  meets1 (type_var_of (Ok (VDict kvs))) (match kvs with [(_, x)] => Exp1Val x | _ => Exp1Nothing end) = true.
+  meets1 (type_var_of (Ok (VDict kvs))) (match kvs with [(_, x)] => Exp1Val x | _ => Exp1Assertion end) = true.
 Proof.
   intros [|[k x] [|kv r]] H; try reflexivity. cbn [map snd forallb] in H. apply andb_true_iff in H as [H _].
   exact H.
